@@ -412,13 +412,15 @@ def load_known():
     return json.load(open(p)).get("findings", [])
 
 
-def match_known(prop, event):
-    """A violation is known only if a 'known' entry of this property matches the event on every
-    key of its 'match' object (exact equality on the listed fields)."""
+def match_known(prop, event, obj=None):
+    """A violation is known only if a 'known' entry of this property matches it on every key of its 'match' object (exact
+    equality): plain keys are fields of the rejected event, keys starting with '@' are fields of the violation record itself
+    (@suite, @trace_spec, @kind, @cfg)."""
+    obj = obj or {}
     for k in load_known():
         if k.get("property") != prop or k.get("status") != "known":
             continue
-        if all(event.get(a) == b for a, b in k.get("match", {}).items()):
+        if all((obj.get(a[1:]) if a.startswith("@") else event.get(a)) == b for a, b in k.get("match", {}).items()):
             return k
     return None
 
@@ -535,7 +537,7 @@ class Check:
 
     def violation(self, obj):
         ev = obj.get("event") or obj
-        k = match_known(self.prop, ev)
+        k = match_known(self.prop, ev, obj)
         if k:
             msg = "KNOWN-FINDING: property=%s %s" % (self.prop, k.get("what", ""))
             if msg not in self.ev.known:
